@@ -23,6 +23,7 @@ type Op struct {
 	Size   int    `json:"size,omitempty"`
 	ID     uint64 `json:"id,omitempty"`     // write id (unique per program)
 	Level  int    `json:"level,omitempty"`  // begin: isolation level
+	Quiet  bool   `json:"quiet,omitempty"`  // begin: the transaction is left alone (no read-backs through it) until its first own statement, which may come many steps later
 	NoLvl  bool   `json:"nolvl,omitempty"`  // begin: call Begin(ctx) without a level (Level is then 1: the documented default is ReadCommitted)
 	Writes []int  `json:"writes,omitempty"` // create: sizes of the Write calls
 	Shape  string `json:"shape,omitempty"`  // setr: reader shape (plain, byte, short, zero, dataeof)
@@ -179,6 +180,15 @@ func (a *actors) apply(ctx context.Context, o Op) OpResult {
 		ctx = c
 	}
 	switch o.K {
+	case "beginbad":
+		// Begin with an isolation level that does not exist: what it answers is not specified (the
+		// pinned revision runs it as if it were the lowest level, refusing it is as good); whatever
+		// it is, it must leave nothing behind - a transaction that was handed out is rolled back at
+		// once
+		t, err := a.db.Begin(ctx, model.TxIsoLevel(4+o.N))
+		if err == nil {
+			t.Rollback(ctx)
+		}
 	case "begin":
 		var t fs_db.Tx
 		var err error
@@ -251,7 +261,11 @@ func (a *actors) apply(ctx context.Context, o Op) OpResult {
 				b = b[n:]
 			}
 			cerr := f.Close()
-			if werr != nil {
+			if werr != nil && cerr == nil && !strings.HasPrefix(werr.Error(), "harness:") {
+				// a caller may well ignore what Write returns and take the verdict from Close: a file
+				// one of whose Writes failed must not be closed "successfully"
+				r.Err = fmt.Errorf("harness: a Write failed (%v) and Close returned nil all the same", werr)
+			} else if werr != nil {
 				r.Err = werr
 			} else {
 				r.Err = cerr
@@ -264,7 +278,7 @@ func (a *actors) apply(ctx context.Context, o Op) OpResult {
 				r.Err = err
 				break
 			}
-			r.Data, r.Err = readAllClose(rc)
+			r.Data, r.Err = consumeClose(rc, o.Shape, o.Size)
 		case "keys":
 			r.Keys, r.Err = s.GetKeys(ctx)
 		case "del":
